@@ -41,6 +41,7 @@ func verif_haskey(m, k any) bool
 func verif_same(a, b any) bool
 func verif_raw(a any) int
 func verif_calls(name string) int
+func verif_snap(name string) int
 func verif_lastarg(name string, i int) int
 func verif_lastargn(name string, i int, k int) int
 func verif_lastres(name string) int
@@ -415,7 +416,7 @@ func (e *Engine) prepareRepoPackage(rel string, overlay map[string][]byte) error
 		post := strings.Join(parts, ", ")
 		c.SynParams = names
 		sf := getSyn(c.SrcFile)
-		for _, cl := range append(append(append([]*Clause{}, c.Requires...), c.Givens...), c.Assumes...) {
+		for _, cl := range append(append(append(append([]*Clause{}, c.Requires...), c.Givens...), c.Assumes...), c.Snaps...) {
 			if err := e.genClause(sf, cl, pre); err != nil {
 				return err
 			}
